@@ -295,6 +295,11 @@ pub const CORPUS: &[&str] = &[
     "permit(principal,action,resource);// c\nforbid(principal,action,resource);",
     "permit(principal,action,resource) when { context.aaaaaaaaaaaaaaaaaaaaaaaaaaaaaaaaaaaaaaaaaaaaaaaaaaaaaaaaaaaaaaaaaaaaaaaaaaaaaaaaaaaaaaaaaaaaaaaaaaaaaaaaaaaaaaaaaaaaaa.bbbbbbbbbbbbbbbbbbbbbbbbbbbbbbbbbbbbbbbbbbbbbbbbbbbbbbbbbbbbbbbbbbbbbbbbbbbbbbbbbbbbbbbbbb == \"cccccccccccccccccccccccccccccccccccccccccccccccccccccccccccccccccccccccccccccccccccccccccccccccccccccccccccccccccccccccccccccc\" };",
     "permit(principal,action,resource) when { \"multi\nline\n\n\nstring\" == \"x\" };",
+    // chains of three and more operands of every left-associative operator (a comment may sit on ANY operator of the chain)
+    "permit(principal,action,resource) when { 1 + 2 - 3 + context.n - 4 + 5 == 0 && 1 * 2 * 3 * 4 == 24 && true && false && 1 < 2 || false || true || 2 <= 1 };",
+    "permit(principal,action,resource) when { context.a.b.c.d.e == A::B::C::D::\"x\" && principal.f.f.f.f has n && - - - 1 == 1 };",
+    // blank lines inside a string literal and inside an entity id, after text that looks like the start of a string / comment
+    "permit(principal,action,resource) when { User::\"a\n\nb\" == principal && \"x // y\n\n\" z\" != \"\n\n\" };",
 ];
 
 fn gen_annotations(r: &mut Rng) -> String {
@@ -522,7 +527,8 @@ pub fn run_program(out: &mut Out, r: &mut Rng, text: &str, thorough: bool, exhau
     let mut k = r.below(grid.len());
     for b in 0..=toks.len() {
         for style in 0..3 {
-            let tag = format!("c{b}");
+            // comment texts rotate: plain, with an unbalanced quote, with quotes / backslash / comment openers
+            let tag = match b % 3 { 0 => format!("c{b}"), 1 => format!("c{b} 6\" wide"), _ => format!("c{b} \"q\" \\ 'x' // /*") };
             let t = inject(text, &toks, b, style, &tag);
             out.count("boundary_variants");
             // the injected text must still parse to the same policies (comments are not tokens)
